@@ -383,7 +383,7 @@ def final_diffs(cfg, ex, script):
 
 def correspond(ctx):
     import starsim as ss
-    nconf = ctx.budget(10, 60)
+    nconf = ctx.budget(14, 60)
     per = 3
     all_lines = []; index = []
     with tempfile.TemporaryDirectory(prefix='c09_') as tmpdir:
@@ -498,7 +498,7 @@ def oracle_guards(cfg):
 
 
 def search(ctx):
-    nconf = ctx.budget(5, 40)
+    nconf = ctx.budget(6, 20)
     with tempfile.TemporaryDirectory(prefix='c09s_') as tmpdir:
         # inputs a broken correspondence pointed at: replay them on the real code (final comparison)
         for b in ctx.broken:
